@@ -1,0 +1,59 @@
+// Copyright (c) 2019,CAOHONGJU All rights reserved.
+// Use of this source code is governed by a MIT-style
+// license that can be found in the LICENSE file.
+
+//go:build verif
+// +build verif
+
+// Package simhook 仅在 verif 构建标签下生效的仿真调度钩子。
+// 默认构建(无 verif 标签)下所有函数为空函数，不改变任何行为。
+package simhook
+
+import "sync"
+
+// Yield 由仿真器安装；nil 表示未在仿真中运行。
+var Yield func(site string)
+
+// ProbeFn 由仿真器安装，统计到达某个分支的次数。
+var ProbeFn func(name string)
+
+// Y 调度点：仿真器决定哪个任务继续运行。
+func Y(site string) {
+	if f := Yield; f != nil {
+		f(site)
+	}
+}
+
+// Probe 到达计数。
+func Probe(name string) {
+	if f := ProbeFn; f != nil {
+		f(name)
+	}
+}
+
+// BeforeLock 在获取可能跨调度点持有的互斥锁之前调用：
+// 仿真时把对锁的竞争转换成调度点，避免在 sync.Mutex 上非持久阻塞。
+func BeforeLock(mu *sync.Mutex) {
+	f := Yield
+	if f == nil {
+		return
+	}
+	for !mu.TryLock() {
+		Probe("lock.contended")
+		f("lockwait")
+	}
+	mu.Unlock()
+}
+
+// BeforeRLock 同 BeforeLock，用于读写锁的写锁/读锁获取前。
+func BeforeRWLock(mu *sync.RWMutex) {
+	f := Yield
+	if f == nil {
+		return
+	}
+	for !mu.TryLock() {
+		Probe("lock.contended")
+		f("lockwait")
+	}
+	mu.Unlock()
+}
